@@ -21,6 +21,7 @@ type verifRollWorld struct {
 	// finalizeAnswers (by spec value x) enables a finalize hook that returns the
 	// same children as the sync hook and finalized = finalizeAnswers[x]
 	finalizeAnswers map[string]bool
+	childNS         string // namespace of the children when it is not the parent's (cluster-scoped parent with namespaced children)
 	omit            map[string]int // per child name: 1 = the hook leaves it out, 2 = the hook lists null in its place (set by a harness in the middle of a run)
 	requireReady    bool // children must carry status condition Ready=True to count as healthy
 	extraPath       bool // nested mode: revisionHistory.fieldPaths = [spec.nodePool, spec.template] with spec.nodePool never set
@@ -86,6 +87,8 @@ func (r *verifRollWorld) child(name, x string) *unstructured.Unstructured {
 	var o *unstructured.Unstructured
 	if r.namespaced {
 		o = env.ConfigMap(r.ns, name, "", x)
+	} else if r.childNS != "" {
+		o = env.ConfigMap(r.childNS, name, "", x)
 	} else {
 		o = env.Obj("v1", "Namespace", "", name, "")
 		o.Object["data"] = map[string]interface{}{"k": x}
@@ -97,7 +100,11 @@ func (r *verifRollWorld) child(name, x string) *unstructured.Unstructured {
 }
 
 func (r *verifRollWorld) childValue(name string) (string, bool) {
-	o := r.w.Srv.Peek(r.childRes.Name, r.ns, name)
+	ns := r.ns
+	if r.childNS != "" {
+		ns = r.childNS
+	}
+	o := r.w.Srv.Peek(r.childRes.Name, ns, name)
 	if o == nil {
 		return "", false
 	}
@@ -132,6 +139,18 @@ func verifNewRollWorldOpts(namespaced, gensel, nested bool, method string, names
 		r.parentRes, r.childRes, r.ns = env.ClusterThingRes, env.NamespaceRes, ""
 		parent = env.Obj("ex.com/v1", "ClusterThing", "", "p", "puid")
 	}
+	parent.Object["spec"] = r.spec(x)
+	r.w.Srv.Put(r.parentRes.Name, parent)
+	r.newPC()
+	return r
+}
+
+// verifNewRollWorldClusterNS: a cluster-scoped parent whose children are
+// namespaced (ConfigMaps in "cns"): revisions name such children namespace/name.
+func verifNewRollWorldClusterNS(method string, names []string, x string) *verifRollWorld {
+	r := &verifRollWorld{w: env.NewWorld(), names: names, method: method, childNS: "cns"}
+	r.parentRes, r.childRes, r.ns = env.ClusterThingRes, env.ConfigMapRes, ""
+	parent := env.Obj("ex.com/v1", "ClusterThing", "", "p", "puid")
 	parent.Object["spec"] = r.spec(x)
 	r.w.Srv.Put(r.parentRes.Name, parent)
 	r.newPC()
@@ -237,7 +256,7 @@ func (r *verifRollWorld) claimCount(name string) int {
 	for _, rev := range r.w.Srv.Revs() {
 		for _, ck := range rev.Children {
 			for _, c := range ck.Names {
-				if c == name {
+				if c == name || (r.childNS != "" && c == r.childNS+"/"+name) {
 					n++
 				}
 			}
@@ -259,7 +278,13 @@ func verifRollMethod() string {
 func VerifC09_Ordering() {
 	namespaced := rt.Bool("namespaced")
 	method := verifRollMethod()
-	r := verifNewRollWorld(namespaced, method, []string{"a", "b"}, "1")
+	r := (*verifRollWorld)(nil)
+	if !namespaced && rt.Bool("cluster-scoped-parent-with-namespaced-children") {
+		rt.Cover("cluster-parent-namespaced-children")
+		r = verifNewRollWorldClusterNS(method, []string{"a", "b"}, "1")
+	} else {
+		r = verifNewRollWorld(namespaced, method, []string{"a", "b"}, "1")
+	}
 	err := r.sync()
 	rt.Assert(err == nil, "first-sync/error")
 	rt.Assert(len(r.w.Srv.Revs()) == 1, "first-sync/not-exactly-one-revision")
